@@ -77,6 +77,10 @@ func readBundle(b []byte) *bundle {
 		bu.Err = "lexer panic: " + lr.Panic
 		return bu
 	}
+	if lr.Unstable != "" {
+		bu.Err = "lexer: " + lr.Unstable
+		return bu
+	}
 	if !errors.Is(lr.Err, io.EOF) {
 		bu.Err = fmt.Sprintf("lexer: %v", lr.Err)
 		return bu
